@@ -354,10 +354,13 @@ fn c03_parse_sticky() {
 
 /// Stand-in for `State::drive` in the harness of the `Parser::parse` glue: consumes an arbitrary prefix and
 /// returns an arbitrary non-final or final state (drive itself is covered state by state elsewhere).
+static mut DRIVE_KIND: u8 = 0;      // what the drive stub returned: 0 Header, 1 HeaderSkip, 2 Fatal(NullRequest), 3 Done
 fn drive_any<'a>(_st: State, data: &'a mut [u8], _out: &mut Vec<u8>, _config: &Config) -> SResult<'a> {
     let k: usize = kani::any();
     kani::assume(k <= data.len());
-    let st = match kani::any::<u8>() {
+    let kind: u8 = kani::any();
+    unsafe { DRIVE_KIND = if kind > 3 { 3 } else { kind }; }
+    let st = match kind {
         0 => State::Header(HeaderState),
         1 => State::HeaderSkip(SkipState { next: HeaderState, payload_rem: kani::any(), padding_rem: kani::any() }),
         2 => State::Fatal(Error::NullRequest),
@@ -395,6 +398,12 @@ fn c06_stuck_iff_full() {
     if stuck { assert!(rem == B, "StuckOnInput although the buffer is not full"); }
     if !done { assert!(!p.input_buffer().is_empty(), "an unfinished parser must always offer input space"); }
     if rem == B { assert!(done, "a full buffer of unconsumable bytes must be reported in this very call"); }
+    // a final outcome of the state machine must never be replaced (C03: final states are absorbing)
+    match unsafe { DRIVE_KIND } {
+        2 => assert!(matches!(p.state, State::Fatal(Error::NullRequest)), "a fatal error was replaced by another state"),
+        3 => assert!(matches!(p.state, State::Done(_)), "a finished request was replaced by another state"),
+        _ => {}
+    }
     kani::cover!(stuck, "stuck detected");
     kani::cover!(rem == B && !stuck, "full buffer but already final");
     kani::cover!(!done && rem == B - 1, "one byte of space left");
@@ -640,7 +649,7 @@ fn parse_stream_any(_s: &mut ParamsStateInner, data: &mut [u8], rec_end: bool) -
     r
 }
 
-// @harness name=c01_params_framing props=C01,C03,C04,C11 tier=quick timeout=2400
+// @harness name=c01_params_framing props=C01,C03,C04,C11,C06 tier=quick timeout=2400
 // @bound ParamsState::drive for every payload_rem / padding_rem, input 0..24 symbolic bytes (every following header), parse_stream replaced by a contract stub (checked separately); own request id symbolic
 // @functions request::ParamsState::drive, try_head!, ParamsState::into_skip, StateBuilder for ParamsStateInner / Request
 #[kani::proof]
@@ -656,7 +665,11 @@ fn c01_params_framing() {
     let (payload, padding): (u16, u8) = (kani::any(), kani::any());
     let req = fresh_req();
     let my = req.request_id.get();
-    let ps = ParamsState { inner: ParamsStateInner { req, buffer: Vec::new() }, payload_rem: payload, padding_rem: padding };
+    // a pair carried over from the previous record may or may not be pending in the side buffer
+    let mut carry: Vec<u8> = Vec::with_capacity(8);
+    if kani::any() { carry.push(0x05); }
+    let carried = !carry.is_empty();
+    let ps = ParamsState { inner: ParamsStateInner { req, buffer: carry }, payload_rem: payload, padding_rem: padding };
     let mut out: Vec<u8> = Vec::with_capacity(32);
     out.push(0xD1);
     let r = ps.drive(&mut buf[..n], &mut out);
@@ -675,6 +688,7 @@ fn c01_params_framing() {
         assert!(!is_cont && consumed == c && quiet, "only what parse_stream consumed may be dropped from the input");
         assert!(matches!(st, State::Params(p) if p.payload_rem == payload - c as u16 && p.padding_rem == padding), "payload accounting wrong");
         kani::cover!(c < n, "unconsumed partial pair stays in the input buffer");
+        kani::cover!(carried, "partial payload while a pair from the previous record is still pending");
     } else {
         if pl > 0 { assert!(calls == 1 && unsafe { PS_LEN[0] == pl && PS_END[0] }, "complete payload must be parsed as exactly the record's bytes with rec_end = true"); }
         else { assert!(calls == 0, "no payload, no parse_stream call"); }
